@@ -82,6 +82,26 @@ func viewB(s, res []byte) string {
 	return itoa(lo) + ":" + itoa(lo+len(res))
 }
 
+// aliasHook, when set (C05, C18), receives the empty results of the bytcase Trim/Cut families that do not alias the
+// first argument where the result implies: an empty result must be s[off:off] (non-nil, capacity cap(s)-off), nil
+// only where the function documents it (Cut's "after" when nothing was found)
+var aliasHook func(fn string, s, t []byte, detail string)
+
+func emptyAlias(fn string, s, t, res []byte, off int, nilOK bool) {
+	if aliasHook == nil || len(res) != 0 {
+		return
+	}
+	if res == nil {
+		if !nilOK {
+			aliasHook(fn, s, t, fmt.Sprintf("empty result is nil, want the empty slice s[%d:%d]", off, off))
+		}
+		return
+	}
+	if cap(res) != cap(s)-off {
+		aliasHook(fn, s, t, fmt.Sprintf("empty result has capacity %d, want cap(s)-%d = %d: it is not s[%d:%d]", cap(res), off, cap(s)-off, off, off))
+	}
+}
+
 var fnDefs = []fnDef{
 	{"Compare", kSS, func(s, t string, _ int64) string { return itoa(sign(strcase.Compare(s, t))) },
 		func(s, t []byte, _ int64) string { return itoa(sign(bytcase.Compare(s, t))) }},
@@ -98,14 +118,23 @@ var fnDefs = []fnDef{
 	{"HasSuffix", kSS, func(s, t string, _ int64) string { return b2s(strcase.HasSuffix(s, t)) },
 		func(s, t []byte, _ int64) string { return b2s(bytcase.HasSuffix(s, t)) }},
 	{"TrimPrefix", kSS, func(s, t string, _ int64) string { return viewS(s, strcase.TrimPrefix(s, t)) },
-		func(s, t []byte, _ int64) string { return viewB(s, bytcase.TrimPrefix(s, t)) }},
+		func(s, t []byte, _ int64) string {
+			r := bytcase.TrimPrefix(s, t)
+			emptyAlias("TrimPrefix", s, t, r, len(s), false)
+			return viewB(s, r)
+		}},
 	{"TrimSuffix", kSS, func(s, t string, _ int64) string { return viewS(s, strcase.TrimSuffix(s, t)) },
-		func(s, t []byte, _ int64) string { return viewB(s, bytcase.TrimSuffix(s, t)) }},
+		func(s, t []byte, _ int64) string {
+			r := bytcase.TrimSuffix(s, t)
+			emptyAlias("TrimSuffix", s, t, r, 0, false)
+			return viewB(s, r)
+		}},
 	{"CutPrefix", kSS, func(s, t string, _ int64) string {
 		a, f := strcase.CutPrefix(s, t)
 		return viewS(s, a) + ":" + b2s(f)
 	}, func(s, t []byte, _ int64) string {
 		a, f := bytcase.CutPrefix(s, t)
+		emptyAlias("CutPrefix", s, t, a, len(s), false)
 		return viewB(s, a) + ":" + b2s(f)
 	}},
 	{"CutSuffix", kSS, func(s, t string, _ int64) string {
@@ -113,6 +142,7 @@ var fnDefs = []fnDef{
 		return viewS(s, a) + ":" + b2s(f)
 	}, func(s, t []byte, _ int64) string {
 		a, f := bytcase.CutSuffix(s, t)
+		emptyAlias("CutSuffix", s, t, a, 0, false)
 		return viewB(s, a) + ":" + b2s(f)
 	}},
 	{"Count", kSS, func(s, t string, _ int64) string { return itoa(strcase.Count(s, t)) },
@@ -122,6 +152,8 @@ var fnDefs = []fnDef{
 		return viewS(s, b) + ":" + viewS(s, a) + ":" + b2s(f)
 	}, func(s, t []byte, _ int64) string {
 		b, a, f := bytcase.Cut(s, t)
+		emptyAlias("Cut", s, t, b, 0, false)
+		emptyAlias("Cut", s, t, a, len(s), !f)
 		return viewB(s, b) + ":" + viewB(s, a) + ":" + b2s(f)
 	}},
 	{"IndexAny", kSS, func(s, t string, _ int64) string { return itoa(strcase.IndexAny(s, t)) },
